@@ -186,7 +186,7 @@ def prove(pid, extra_targets=()):
     txt = strip_comments(open(src).read())
     res["theorems"] = re.findall(r"^\s*(?:Theorem|Corollary)\s+([\w']+)", txt, re.M)
     nprint = len(re.findall(r"Print Assumptions", txt))
-    ok, log = coq_make(rel + "o", force=[rel])
+    ok, log = coq_make(rel + "o", force=[rel], timeout=900)
     res["log"] = log
     if not ok:
         m = re.search(r'File "([^"]+)", line (\d+), characters [^\n]*\n(Error[^\n]*(?:\n[^\n]+){0,6})', log)
